@@ -74,18 +74,38 @@ def run(ctx):
     # (2) symmetry
     rule = 'C19.symmetric-term'
     found = 0
-    for c in closures:
+    for c in [f] + closures:
         for bi, t, e in q.calls_named(c, 'powf'):
             found += 1
             base = facts.strip_refs(e[2][0])
             ab = base if q.is_call(base, 'abs') else None
             inner = facts.strip_refs(ab[2][0]) if ab else None
             is_diff = inner is not None and ((inner[0] == 'bin' and inner[1] == 'Sub') or q.is_call(inner, 'sub', 'ops::'))
-            expo = norm(e[2][1])
-            expo_ok = expo[0] == 'upvar'
+            expo = norm(q.resolve_captures(lib, c, e[2][1]))
+            expo_ok = expo[0] == 'upvar' or (p_param is not None and expo == p_param)
             ctx.verdict(bool(ab) and is_diff and expo_ok, rule, '%s:%s' % (rule, q.top(c.name)),
                         'each accumulated term is powf(abs(left - right), p): the difference goes through abs before the power', c.where(bi),
                         'base=%s exponent=%s' % (facts.show(base)[:80] if not ab else 'abs(' + ('sub' if is_diff else '?') + ')', facts.show(expo)),
                         breaks='distance(a,b) != distance(b,a), or NaN from a negative base')
     if not found:
         ctx.anchor_lost(rule, 'distance: powf term')
+
+    # (3) each player's sum is averaged over that player's own infosets
+    rule = 'C19.per-player-count'
+
+    def ptags(e):
+        out = set(q.tags(e))
+        for x in facts.walk(e):
+            if x[0] == 'call' and short(x[1]) in ('ind', 'ind_mut') and x[2]:
+                a0 = facts.strip_refs(x[2][0])
+                if a0[0] == 'agg' and 'PlayerNum::' in a0[1]:
+                    out.add(0 if a0[1].endswith('One') else 1)
+        return out
+    for c in [f] + closures:
+        for dv in e2.f64_divisions(c):
+            num = q.resolve_captures(lib, c, dv['num'])
+            den = q.resolve_captures(lib, c, dv['den'])
+            tn, td = ptags(num), ptags(den)
+            if len(tn) == 1 and len(td) == 1:
+                ctx.verdict(tn == td, rule, '%s:%s' % (rule, sorted(tn)[0]), 'player k\'s summed differences are divided by the number of infosets of player k', c.where(line=dv['line']),
+                            'numerator from player position %s, divisor from player position %s' % (sorted(tn), sorted(td)), breaks='a player\'s distance is scaled by the other player\'s infoset count (0 when that player has none)')
